@@ -175,6 +175,7 @@ pub fn profile(mode_kind: u8) -> Profile {
             pf.kinds = [0; N_KINDS];
             pf.kinds[6] = 4;
             pf.kinds[7] = 2;
+            pf.sat_pct = 30;
             pf
         }
         2 => {
